@@ -1,6 +1,7 @@
 package sim
 
 import (
+	"sort"
 	"encoding/json"
 	"fmt"
 	"math/rand/v2"
@@ -13,7 +14,7 @@ type Trigger struct {
 	CIdx     int    // token: the connection
 	Name     string // reaccess: resource name
 	Patterns []string
-	PrevTok  bool // token: the connection already had a (non-null) token
+	PrevTok  bool // token: the connection has had a (non-null) token before
 	Token    string
 	DlvStep  int
 	DlvCut   int
@@ -130,8 +131,10 @@ func (s *Sim) oracleTokenDelivered(cidx int, t *TokenRec) {
 		if &toks[i] == t {
 			break
 		}
-		if toks[i].DeliveredStep >= 0 {
-			prev = toks[i].Token != "null"
+		if toks[i].DeliveredStep >= 0 && toks[i].Token != "null" {
+			// the connection has had a token (C04: "a connection that already
+			// had a token"), also when it was cleared since
+			prev = true
 		}
 	}
 	s.triggerDelivered(&Trigger{Kind: "token", CIdx: cidx, PrevTok: prev, Token: t.Token})
@@ -678,12 +681,73 @@ func (s *Sim) accessQuiescence() {
 	for _, t := range s.Triggers {
 		for _, hp := range t.Held {
 			s.checkRecheck(t, hp.c, hp.rid)
+			s.checkNoEventBeforeVerdict(t, hp.c, hp.rid)
 		}
 		for _, ps := range t.Pending {
 			s.checkPendingSubscribe(t, ps.c, ps.r)
 		}
 	}
 	s.tokenResetQuiescence()
+}
+
+// checkNoEventBeforeVerdict is C06.c for a settled direct subscription: an
+// event of the resource that reached the gateway after the trigger (after an
+// idle moment following it, so that the trigger has certainly been processed)
+// is not delivered to the client before the answer to the first access request
+// sent after the trigger has reached the gateway. Judged on custom events,
+// which carry their position in the service's stream.
+func (s *Sim) checkNoEventBeforeVerdict(t *Trigger, c *Client, rid string) {
+	if c.Tainted != "" || c.Failed != "" || c.Fuzzy[rid] {
+		return
+	}
+	name, query := splitRID(c.expandCID(rid))
+	_, v := s.W.lookup(c.expandCID(rid))
+	if v == nil {
+		return
+	}
+	s.mu.Lock()
+	var first *Req
+	for _, q := range s.tr.reqs {
+		if q.Type == "access" && q.CIdx == c.CIdx && q.Name == name && q.Query == query && q.Seq > t.DlvSeq && (first == nil || q.Seq < first.Seq) {
+			first = q
+		}
+	}
+	s.mu.Unlock()
+	if first == nil {
+		return // C06.a
+	}
+	s.stat("oracle.C06.c", 1)
+	for _, e := range v.Stream {
+		switch e.Kind {
+		case "snap", "change", "add", "remove", "delete", "reaccess":
+			continue
+		}
+		if e.DlvCut <= t.DlvCut || e.Lost || e.Derived {
+			continue
+		}
+		if first.Delivered && e.DlvSeq > first.DlvSeq {
+			continue
+		}
+		s.stat("oracle.C06.c_events_in_window", 1)
+		// the frame that carries it
+		for _, f := range c.Frames {
+			if f.Event != rid+"."+e.Kind || f.Seq < t.DlvSeq {
+				continue
+			}
+			var d struct {
+				Data struct {
+					Seq *int `json:"seq"`
+				} `json:"data"`
+			}
+			if json.Unmarshal([]byte(f.Raw), &d) != nil || d.Data.Seq == nil || *d.Data.Seq != e.Pos {
+				continue
+			}
+			if !first.Delivered || f.Seq < first.DlvSeq {
+				c.violate("C06", "c", "event-before-verdict", "client %s, %s: event %s (seq %d) reached the gateway after the %s trigger of step %d and was delivered to the client before the answer to the re-check %s had reached the gateway", c.Name, rid, e.Kind, e.Pos, t.Kind, t.DlvStep, first.ID)
+				return
+			}
+		}
+	}
 }
 
 // checkPendingSubscribe is C06.a for a subscribe request that was in flight
@@ -999,6 +1063,22 @@ func genAccessClientOp(s *Sim, c *Client) (Decision, bool) {
 func genAccessSvcOp(s *Sim) (Decision, bool) {
 	x := s.rng.Float64()
 	w := s.W
+	if x >= 0.50 && x < 0.62 {
+		// an event on a resource while an access check for it is in flight (the
+		// window of C06.c)
+		var names []string
+		s.mu.Lock()
+		for _, r := range s.tr.reqs {
+			if r.Type == "access" && (!r.Delivered) && r.Query == "" && w.Res[r.Name] != nil && s.tr.subs["event."+r.Name] != nil && s.tr.subs["event."+r.Name].active {
+				names = append(names, r.Name)
+			}
+		}
+		s.mu.Unlock()
+		if len(names) > 0 {
+			sort.Strings(names)
+			return svcDecision(&SvcOp{Op: "custom", Name: pickOne(s, names), Ev: pickOne(s, []string{"custom", "ping"})}), true
+		}
+	}
 	switch {
 	case x < 0.22:
 		// token event for a connected client
